@@ -79,6 +79,10 @@ def own_nodes(fn):
         todo.extend(ast.iter_child_nodes(n))
 
 
+def class_val(c) -> str:
+    return f"(.obj {lean_str('type:' + c.__qualname__)} .fnil)"
+
+
 def lit_val(v) -> str:
     if isinstance(v, bool):
         return f"(.bool {str(v).lower()})"
@@ -319,6 +323,8 @@ class Fn:
             g = self.glob.get(node.id)
             if isinstance(g, int) and not isinstance(g, bool):
                 return f"(.lit {lit_val(g)})"
+            if isinstance(g, type) and g.__module__.startswith("chartparse"):
+                return f"(.lit {class_val(g)})"   # a class of the package handed on as a value: an object that is nothing but its name
             raise Refused(f"name {node.id}")
         if isinstance(node, ast.Attribute):
             d = dotted(node)
@@ -333,6 +339,8 @@ class Fn:
                     return f"(.lit {lit_val(obj)})"
                 if isinstance(obj, str):
                     return f"(.lit {lit_val(obj)})"   # a class-level string constant of another class (`Metadata.header_tag`): its live value
+                if isinstance(obj, type) and obj.__module__.startswith("chartparse"):
+                    return f"(.lit {class_val(obj)})"
                 raise Refused(f"global {d}")
             if d is not None and self.owner is not None and self.first_kind == "classmethod" and len(d.split(".")) == 2 \
                     and d.split(".")[0] == self.first_param and d.split(".")[1] in vars(self.owner) \
@@ -616,6 +624,9 @@ FUNCTIONS = [
     ("notesPerSecond", "chart", "Chart.notes_per_second"),
     ("parseAllLinesForField", "metadata", "Metadata.from_chart_lines.parse_all_lines_for_field"),
     ("fromFile", "chart", "Chart.from_file"),
+    ("instrumentFromChartLines", "instrument", "InstrumentTrack.from_chart_lines"),
+    ("syncFromChartLines", "sync", "SyncTrack.from_chart_lines"),
+    ("globalEventsFromChartLines", "globalevents", "GlobalEventsTrack.from_chart_lines"),
 ]
 
 
